@@ -149,6 +149,102 @@ func c17TypeCodec(p *Prog, r *Report) {
 	r.Floor(rule, 8)
 
 	c17Namespace(p, r, mk, nsEnc, nsDec, nsT)
+	c17SchemaEnvelope(p, r, enc, dec, nsEnc, nsDec)
+}
+
+// c17SchemaEnvelope: decode(encode(schema)) keeps the bare declarations and every namespace under its name (type and
+// namespace codecs summarised; they are decided by R17.1 / R17.1n).
+func c17SchemaEnvelope(p *Prog, r *Report, tEncF, tDecF, nsEnc, nsDec *types.Func) {
+	const rule = "R17.1s-json-schema-envelope"
+	pk := p.Pkgs[pSchemaJS]
+	astSchema := p.namedType(pSchemaAst, "Schema")
+	if pk == nil || astSchema == nil || nsEnc == nil || nsDec == nil {
+		r.Anchor(rule, "schema JSON envelope")
+		return
+	}
+	var schT *types.Named
+	for _, name := range pk.Types.Scope().Names() {
+		if tn, ok := pk.Types.Scope().Lookup(name).(*types.TypeName); ok {
+			if nt, ok := tn.Type().(*types.Named); ok && types.Identical(nt.Underlying(), astSchema.Underlying()) {
+				schT = nt
+			}
+		}
+	}
+	if schT == nil {
+		r.Anchor(rule, "the JSON wrapper type of ast.Schema")
+		return
+	}
+	var enc, dec *types.Func
+	ms := types.NewMethodSet(types.NewPointer(schT))
+	for i := 0; i < ms.Len(); i++ {
+		fo := ms.At(i).Obj().(*types.Func)
+		switch fo.Name() {
+		case "MarshalJSON":
+			enc = fo
+		case "UnmarshalJSON":
+			dec = fo
+		}
+	}
+	if enc == nil || dec == nil {
+		r.Anchor(rule, "Schema.MarshalJSON / UnmarshalJSON in the schema JSON package")
+		return
+	}
+	outs := runForks(func() *sev {
+		s := newSev(p)
+		s.fnPairs = map[*types.Func]*types.Func{tDecF: tEncF, nsDec: nsEnc}
+		return s
+	}, func(s *sev) (tv, any) {
+		res := s.callFn(nil, &tFn{Obj: enc, Recv: &tSym{Name: "sch", T: types.NewPointer(schT)}}, nil, false, nil)
+		t, ok := res.(*tTuple)
+		if !ok || len(t.Vs) != 2 {
+			s.abort("encoder result %s", res.ts())
+		}
+		if _, isNil := t.Vs[1].(tNil); !isNil {
+			s.abort("the encoder returns an error")
+		}
+		dcell := &tcell{staleObject(schT)}
+		derr := s.callFn(nil, &tFn{Obj: dec, Recv: &tPtr{dcell}, RecvCell: dcell}, []tv{t.Vs[0]}, false, nil)
+		return &tTuple{[]tv{dcell.v, derr}}, nil
+	})
+	nOK := 0
+	for _, o := range outs {
+		cs := "schemajson.Schema"
+		// a namespace cannot be named "" (that key holds the bare declarations): rows that assume so are outside the format
+		outside := false
+		for k, v := range o.Assume {
+			if strings.HasPrefix(k, "eq:key:") && strings.HasSuffix(k, `==""`) && v == "true" {
+				outside = true
+			}
+		}
+		if outside {
+			continue
+		}
+		if o.Abort != "" {
+			r.Undec(rule, cs, p.pos(dec.Pos()), "the schema envelope codec is outside the converter idioms the extraction understands: "+clip(o.Abort, 240))
+			continue
+		}
+		t := o.Result.(*tTuple)
+		if _, isNil := t.Vs[1].(tNil); !isNil {
+			r.Viol(rule, cs+"["+clip(assumeString(o.Assume), 120)+"]", p.pos(dec.Pos()), "decoding the encoder's own output ends in an error return")
+			continue
+		}
+		s := newSev(p)
+		s.refine, s.assume, s.looseNamed = o.Refine, o.Assume, true
+		diffs := s.identity(t.Vs[0], &tSym{Name: "sch", T: schT}, nil)
+		if strings.Contains(t.Vs[0].ts(), "stale.") {
+			diffs = append(diffs, "the decoded schema still holds what the receiver held before decoding")
+		}
+		if len(diffs) == 0 {
+			nOK++
+			continue
+		}
+		r.Viol(rule, cs+"["+clip(assumeString(o.Assume), 120)+"]", p.pos(dec.Pos()), "decode(encode(schema)) differs from the original: "+strings.Join(diffs, "; ")+" [decoded: "+clip(t.Vs[0].ts(), 300)+"]")
+	}
+	if nOK > 0 {
+		r.OK(rule, "schemajson.Schema", p.pos(dec.Pos()), "decode(encode(schema)) keeps the bare declarations and every namespace under its name on "+itoa(nOK)+" rows")
+	} else {
+		r.Undec(rule, "schemajson.Schema:rows", "-", "no successful row extracted")
+	}
 }
 
 // c17Namespace: decode(encode(namespace)) gives back every declaration map keyed as before, with annotations, shapes,
